@@ -182,11 +182,12 @@ BlockViols(b, n, res) ==
     Tag(Stored(res) # Accepted(id), "X04.d.accept")
     \cup Tag(Stored(res) = Accepted(id) /\ res # BlockExpect(id), "X04.d.class")
 Answered(o, id) == IF id # 0 /\ o[id] > 0 THEN [o EXCEPT ![id] = @ - 1] ELSE o
+HaveAfter(b, n) == LET id == IdOf(b, n) IN IF Accepted(id) THEN have \cup {id} ELSE have
+StoreAfter(b, n, t) == LET id == IdOf(b, n) IN IF Accepted(id) THEN [store EXCEPT ![id] = t] ELSE store
 BlockUpdate(b, n, t) ==
-    LET id == IdOf(b, n) IN
-    /\ out' = Answered(out, id)
-    /\ have' = IF Accepted(id) THEN have \cup {id} ELSE have
-    /\ store' = IF Accepted(id) THEN [store EXCEPT ![id] = t] ELSE store
+    /\ out' = Answered(out, IdOf(b, n))
+    /\ have' = HaveAfter(b, n)
+    /\ store' = StoreAfter(b, n, t)
     /\ UNCHANGED <<cfg, chokd, snub>>
 \* completion: the loop closes the download and hands the buffer to the piece writer
 BlockDelivered(b, n, t, res) ==
